@@ -223,11 +223,11 @@ def rule_refuse_fill(ctx: Ctx) -> None:
                 names = sm.handler_names(h)
                 if any(sm.is_sub("NotEnoughBalance", hn) for hn in names):
                     rer = any(isinstance(x, ast.Raise) for s in h.body for x in C.walk_shallow(s))
-                    nf = any(isinstance(x, ast.Call) and (A.call_name(x) or "") == "order_not_filled" for s in h.body for x in ast.walk(s))
+                    nf = any(isinstance(x, ast.Call) and (A.call_name(x) or "").split(".")[-1] in ("not_filled", "order_not_filled", "_order_not_filled") for s in h.body for x in ast.walk(s))
                     ok = (not rer) and nf
                     why = f"handler {names}: re-raises={rer}, ends in order_not_filled={nf}"
         ctx.check(ok, "C02.5", "a fill the account cannot pay is refused and reported as 'not filled'", po, c,
-                  "except NotEnoughBalance: order_not_filled() (no re-raise)", why)
+                  "except NotEnoughBalance: order.not_filled() (no re-raise)", why)
     c01.rule_formula(ctx, rule="C02.5")
 
 
